@@ -211,6 +211,24 @@ let handle (line : string) : string =
                  M.e_funs = List.map (function L [A "fn"; a; b; f] -> (qname_of a b, ufun_of_sx f) | _ -> failwith "fn") funs;
                  M.e_asis = (cmd = "qa") } in
       show_res (M.exec en (expr_of_sx e))
+  | L [A "json"; L toks; A final] ->
+      let tok = function
+        | L [A "o"; A "arr"] -> M.TOpen M.JArrS | L [A "o"; A "obj"] -> M.TOpen M.JObjS
+        | L [A "c"; A "arr"] -> M.TClose M.JArrS | L [A "c"; A "obj"] -> M.TClose M.JObjS
+        | L [A "v"; v] -> M.TVal (str_of_sx v)
+        | _ -> failwith "json token" in
+      (match M.read_json_result (List.map tok toks) (final = "err") with
+       | M.JTree t -> let b = Buffer.create 256 in dump_node b t; Buffer.contents b
+       | M.JError -> "E"
+       | M.JPanicked -> "PANIC"
+       | M.JNoFuel -> "NOFUEL")
+  | L [A "jsonspec"; L vals] ->
+      let rec jv = function
+        | L [A "sc"; v] -> M.JScalar (str_of_sx v)
+        | L (A "arr" :: items) -> M.JArr (List.map jv items)
+        | L (A "obj" :: ms) -> M.JObj (List.map (function L [k; v] -> (str_of_sx k, jv v) | _ -> failwith "member") ms)
+        | _ -> failwith "json value" in
+      let b = Buffer.create 256 in dump_node b (M.json_spec_tree (List.map jv vals)); Buffer.contents b
   | L [A "sv"; id; p] -> "S " ^ show_str (M.string_value (Hashtbl.find docs (int_of_sx id)) (path_of_sx p))
   | L [A "tostr"; A h] -> "S " ^ show_str (M.num_to_str (M.f_of_bits (z_of_hex h)))
   | L [A "tonum"; v] -> "N " ^ show_num (M.str_to_num (str_of_sx v))
